@@ -198,13 +198,12 @@ ASSUMPTIONS = [
     'paragraphs re-reads the same) is not accused; a route that wrote none merges paragraphs and is caught by the re-read',
     '"asm" class: Dsc.iter_paragraphs / Changes.iter_paragraphs are judged on these plain (unsigned) multi-paragraph documents for '
     'every input form except the one below; field names exclude the structured fields of Dsc/Changes as everywhere',
-    'GUARD (under-demand; the live tree DISAGREES here, reported as a finding of the extension round, not listed in '
-    'known_findings.json by this module): Dsc.iter_paragraphs(f) / Changes.iter_paragraphs(f) for a text file object f that declares '
-    'a non-UTF-8 encoding (latin-1, cp1252, utf-16) are executed on a sample and only COUNTED '
-    '(unjudged:gpg-api-iter_paragraphs-on-non-utf8-text-file:agree/differ/raise): iter_paragraphs always passes encoding="utf-8" '
-    'explicitly, so _gpg_multivalued.__init__ re-encodes the lines with the file\'s encoding and the parser decodes them as UTF-8 '
-    '(the mechanism fix 0288b25 repaired for Dsc(f) / Changes(f) only); those APIs get a UTF-8 text file of the other kind instead; '
-    'Deb822.iter_paragraphs(f) is judged for every encoding',
+    'Dsc.iter_paragraphs(f) / Changes.iter_paragraphs(f) for a text file object f that declares an 8-bit encoding (latin-1, cp1252) '
+    'are judged like every other form (this cell exposed a genuine defect on the then-unchanged tree - iter_paragraphs names '
+    'encoding="utf-8" explicitly and the subclass constructor decoded the re-encoded lines with it - repaired by fix 70d1757; see '
+    'known_findings.json); for an ASCII-incompatible declared encoding (utf-16) they are executed on a sample and only COUNTED '
+    '(unjudged:gpg-api-iter_paragraphs-on-non-utf8-text-file:*), as for the constructor forms; Deb822.iter_paragraphs(f) is judged '
+    'for every encoding',
     '"asm" class COST bound: each distinct text of a document is re-read through every second input form (which half alternates '
     'with the text and the case; every text through all three APIs); mixed-* routes are named in a mechanism key only when no '
     'single-route assembly wrote the same text',
@@ -2096,7 +2095,7 @@ def evaluate_asm(ctx, case, record=True):
                 if cont == ucont and api == 'Deb822':
                     continue
                 form = (cont, 0, 0, 0, api)
-                if ucont is not None and cont == tcont and api != 'Deb822':
+                if ucont is not None and cont == tcont and api != 'Deb822' and 'a'.encode(e) != b'a':
                     if record and not salt % 4:
                         src, closer = open_source(cont, lines, final_nl, blobs, written, tmp, tw_newline)
                         try:
